@@ -269,6 +269,88 @@ def pending_completion_facts():
     return out
 
 
+def translate_scope_table(sm):
+    """ScopedSlicer.registerRefID / slicerForObject, statement by statement, into Gallina over an association list
+    id(obj) -> refid.  registerRefID must be ONE subscript store `self.references[id(obj)] = E` with E built from the
+    parameters; slicerForObject must read the same dict with .get(id(obj)), test the result against None and hand
+    `ReferenceSlicer(<the entry or one component of it>)` back on a hit, `self.parent.slicerForObject(obj)` on a miss.
+    The component handed to ReferenceSlicer is resolved symbolically against E: it must be the `refid` parameter."""
+    reg = P.find_def(sm, "ScopedSlicer.registerRefID")
+    body = [st for st in reg.body if not (isinstance(st, ast.Expr) and isinstance(st.value, ast.Constant))]
+    params = [a.arg for a in reg.args.args]
+    if len(params) != 3 or params[0] != "self" or len(body) != 1 or not isinstance(body[0], ast.Assign) or len(body[0].targets) != 1:
+        raise P.Untranslatable("ScopedSlicer.registerRefID is not a single store")
+    p_refid, p_obj = params[1], params[2]
+    tg = body[0].targets[0]
+    if not (isinstance(tg, ast.Subscript) and ast.unparse(tg.value) == "self.references" and ast.unparse(tg.slice) == "id(%s)" % p_obj):
+        raise P.Untranslatable("ScopedSlicer.registerRefID does not store under self.references[id(obj)]: " + ast.unparse(tg))
+    E = body[0].value
+    if isinstance(E, ast.Tuple) and all(isinstance(e, ast.Name) for e in E.elts):
+        stored = [e.id for e in E.elts]
+    elif isinstance(E, ast.Name):
+        stored = E.id
+    else:
+        raise P.Untranslatable("ScopedSlicer.registerRefID stores " + ast.unparse(E))
+    if not (isinstance(stored, list) and p_obj in stored):
+        # the table is what keeps a registered object alive while its scope is open; without it id(obj) can be reused by a
+        # later temporary and the lookup invents aliasing (the model identifies an object with its id for the whole scope)
+        raise P.Untranslatable("ScopedSlicer.registerRefID: the stored entry %r no longer holds the object itself" % (stored,))
+    look = P.find_def(sm, "ScopedSlicer.slicerForObject")
+    lb = [st for st in look.body if not (isinstance(st, ast.Expr) and isinstance(st.value, ast.Constant))]
+    lparams = [a.arg for a in look.args.args]
+    if len(lparams) != 2 or not lb or not isinstance(lb[0], ast.Assign) or len(lb[0].targets) != 1 or not isinstance(lb[0].targets[0], ast.Name):
+        raise P.Untranslatable("ScopedSlicer.slicerForObject: unexpected head")
+    lobj = lparams[1]
+    x = lb[0].targets[0].id
+    if ast.unparse(lb[0].value) not in ("self.references.get(id(%s), None)" % lobj, "self.references.get(id(%s))" % lobj):
+        raise P.Untranslatable("ScopedSlicer.slicerForObject does not read self.references.get(id(obj)): " + ast.unparse(lb[0].value))
+    miss = "return self.parent.slicerForObject(%s)" % lobj
+    rest = lb[1:]
+    env = {}
+
+    def hit_arg(stmts):
+        """statements executed on a hit -> the expression handed to ReferenceSlicer"""
+        for st in stmts[:-1]:
+            if isinstance(st, ast.Assign) and len(st.targets) == 1 and isinstance(st.targets[0], ast.Name):
+                env[st.targets[0].id] = st.value
+            else:
+                raise P.Untranslatable("ScopedSlicer.slicerForObject: unexpected statement on the hit path: " + ast.unparse(st))
+        last = stmts[-1]
+        if not (isinstance(last, ast.Return) and isinstance(last.value, ast.Call) and ast.unparse(last.value.func) == "ReferenceSlicer"
+                and len(last.value.args) == 1 and not last.value.keywords):
+            raise P.Untranslatable("ScopedSlicer.slicerForObject: the hit path does not return ReferenceSlicer(..): " + ast.unparse(last))
+        a = last.value.args[0]
+        while isinstance(a, ast.Name) and a.id in env:
+            a = env[a.id]
+        return a
+    if len(rest) == 2 and isinstance(rest[0], ast.If) and ast.unparse(rest[0].test) == "%s is not None" % x and not rest[0].orelse \
+            and ast.unparse(rest[1]) == miss:
+        arg = hit_arg(rest[0].body)
+    elif len(rest) >= 2 and isinstance(rest[0], ast.If) and ast.unparse(rest[0].test) == "%s is None" % x and not rest[0].orelse \
+            and [ast.unparse(b) for b in rest[0].body] == [miss]:
+        arg = hit_arg(rest[1:])
+    else:
+        raise P.Untranslatable("ScopedSlicer.slicerForObject: unknown hit/miss structure:\n" + "\n".join(ast.unparse(b) for b in lb))
+    # resolve the argument against what registerRefID stored
+    if isinstance(arg, ast.Name) and arg.id == x:
+        got = stored
+    elif isinstance(arg, ast.Subscript) and isinstance(arg.value, ast.Name) and arg.value.id == x and isinstance(arg.slice, ast.Constant) \
+            and isinstance(arg.slice.value, int) and isinstance(stored, list) and 0 <= arg.slice.value < len(stored):
+        got = stored[arg.slice.value]
+    else:
+        raise P.Untranslatable("ScopedSlicer.slicerForObject hands %s to ReferenceSlicer (stored: %r)" % (ast.unparse(arg), stored))
+    if got != p_refid:
+        # e.g. the object itself: ReferenceSlicer.__init__ asserts an int, the send fails
+        raise P.Untranslatable("ScopedSlicer.slicerForObject hands the stored %r to ReferenceSlicer, not the reference id" % (got,))
+    return [
+        "Fixpoint gen_dict_get (d : list (Z * Z)) (k : Z) : option Z := match d with [] => None | (a, b) :: r => if a =? k then Some b else gen_dict_get r k end.",
+        "(* ScopedSlicer.registerRefID: %s  -- the entry is modelled by its reference-id component *)" % ast.unparse(body[0]),
+        "Definition gen_scoped_register (refs : list (Z * Z)) (oid refid : Z) : list (Z * Z) := (oid, refid) :: refs.  (* dict store: latest wins *)",
+        "(* ScopedSlicer.slicerForObject: %s; hit -> ReferenceSlicer(%s) ; miss -> parent *)" % (ast.unparse(lb[0]), ast.unparse(arg)),
+        "Definition gen_scoped_lookup (refs : list (Z * Z)) (oid : Z) : option Z := match gen_dict_get refs oid with Some e => Some e | None => None end.",
+    ]
+
+
 def read_registry_scan():
     """the statements of RootUnslicer.open after the 'copyable' branch: form (A) or form (B) of the module docstring"""
     rootmod = P.load("slicers/root.py")
@@ -576,21 +658,7 @@ def generate():
     require(ru, ["self.obj = self.protocol.getObject(obj)"], "ReferenceUnslicer.receiveChild")
     require(body_src(P.find_def(sm, "ReferenceUnslicer.receiveClose")), ["return (self.obj, None)"], "ReferenceUnslicer.receiveClose")
     # scopes
-    rr = body_src(P.find_def(sm, "ScopedSlicer.registerRefID"))
-    if norm(rr) != norm("self.references[id(obj)] = (obj, refid)"):
-        raise P.Untranslatable("ScopedSlicer.registerRefID changed: " + rr)
-    sf = body_src(P.find_def(sm, "ScopedSlicer.slicerForObject"))
-    want = ("obj_refid = self.references.get(id(obj), None)\nif obj_refid is not None:\n    return ReferenceSlicer(obj_refid[1])\n"
-            "return self.parent.slicerForObject(obj)")
-    # accepted alternative (guard-clause form), equivalent for ALL inputs: dict.get(k) == dict.get(k, None); `x is None` /
-    # `x is not None` are identity tests on a local (no user code runs) selecting the same two continuations; the entry is
-    # indexed with [1] exactly once in both forms and handed to ReferenceSlicer unchanged
-    import re as _re
-    alt = _re.compile(r"^(\w+) = self\.references\.get\(id\(obj\)(?:, None)?\)\nif \1 is None:\n    return self\.parent\.slicerForObject\(obj\)\n"
-                      r"(?:(\w+) = \1\[1\]\nreturn ReferenceSlicer\(\2\)|return ReferenceSlicer\(\1\[1\]\))$")
-    m_alt = alt.match(norm(sf))
-    if norm(sf) != norm(want) and not (m_alt and m_alt.group(1) not in ("obj", "self") and m_alt.group(2) not in ("obj", "self", m_alt.group(1))):
-        raise P.Untranslatable("ScopedSlicer.slicerForObject changed: " + sf)
+    out.extend(translate_scope_table(sm))
     si = body_src(P.find_def(sm, "ScopedSlicer.__init__"))
     require(si, ["self.references = {}"], "ScopedSlicer.__init__")
     require(body_src(P.find_def(sm, "BaseSlicer.registerRefID")), ["return self.parent.registerRefID(refid, obj)"], "BaseSlicer.registerRefID")
